@@ -344,9 +344,10 @@ def check_tree(tree, res):
     # the value belongs to the points as they are now, whatever the object remembers about earlier calls
     buf = np.array([ARGS[1]["x"], ARGS[1]["y"], ARGS[1]["z"]], float)  # rows x, y, z of one buffer
     zb = None if dims == {2} or not dims else buf[2]
-    for step, (shift, t) in enumerate(((0.0, 0.3), (1.0, 0.3), (1.0, 0.9), (-0.25, 0.9), (0.0, 0.3))):
+    for step, (shift, t, dz) in enumerate(((0.0, 0.3, 0.0), (1.0, 0.3, 0.0), (1.0, 0.9, 0.0), (-0.25, 0.9, 0.0), (0.0, 0.3, 0.0), (0.0, 0.3, 0.4), (0.0, 0.3, -1.1))):
         buf[0] += shift  # in place: the arrays handed over are the same objects as before
         buf[1] -= 0.5 * shift
+        buf[2] += dz  # a height scan at fixed x, y
         tt = t if tdep else None
         try:
             want = ref_eval(tree, buf[0].copy(), buf[1].copy(), None if zb is None else zb.copy(), tt)
